@@ -6,13 +6,11 @@ from __future__ import annotations
 from typing import TYPE_CHECKING
 
 # Third Party Imports
-from numpy import argwhere, exp, ones_like, sqrt
+from numpy import argwhere, ones_like
 from numpy import sum as np_sum
-from scipy.linalg import det
 
 # Local Imports
 from ...data.observation import Observation
-from ...physics import constants as const
 from ...physics.maths import fpe_equals
 from ...physics.statistics import oneSidedChiSquareTest
 from .adaptive_filter import AdaptiveFilter
@@ -68,13 +66,10 @@ class StaticMultipleModel(AdaptiveFilter):
             # [NOTE] Required to make mutable for Ray
             self.model_likelihoods = self.model_likelihoods.copy()
             self.model_weights = self.model_weights.copy()
-            for num, model in enumerate(self.models):
-                # Nastasi, K.N. Dissertation: Section 4.5 Algorithm 4.3 eq 4.9 pg 64
-                self.model_likelihoods[num] = exp(-0.5 * model.nis) / sqrt(
-                    (2 * const.PI) ** model.innov_cvr.shape[0] * det(model.innov_cvr),
-                )
-                # Nastasi, K.N. Dissertation: Section 4.5 Algorithm 4.3 eq 4.10 pg 64
-                self.model_weights[num] = self.model_weights[num] * self.model_likelihoods[num]
+            # Nastasi, K.N. Dissertation: Section 4.5 Algorithm 4.3 eq 4.9 pg 64
+            self.model_likelihoods = self._calcModelLikelihoods()
+            # Nastasi, K.N. Dissertation: Section 4.5 Algorithm 4.3 eq 4.10 pg 64
+            self.model_weights = self.model_weights * self.model_likelihoods
 
             # Check for zero model likelihoods, usually if number of models is large (~100)
             if fpe_equals(0.0, np_sum(self.model_weights)):
